@@ -206,7 +206,7 @@ class ResolverMixin:  # pylint: disable=too-few-public-methods
                 raise CIMError(
                     CIM_ERR_INVALID_PARAMETER,
                     _format("Invalid new_class override  {0} {1!A}. in class "
-                            "{2!A}. Override name {3!A}} not found in  {3!A}.",
+                            "{2!A}. Override name {3!A} not found in  {4!A}.",
                             type_str, obj_name, new_class.classname,
                             override_name, superclass.classname))
 
